@@ -30,6 +30,10 @@ Proof. induction n; simpl; auto. Qed.
 Lemma somes_map_Some : forall {A} (l : list A), somes (map Some l) = l.
 Proof. induction l; simpl; congruence. Qed.
 
+Lemma somes_map_Some' : forall {A B} (g : A -> B) (f : B -> N) (l : list A),
+  map f (somes (map (fun k => Some (g k)) l)) = map (fun k => f (g k)) l.
+Proof. induction l; simpl; congruence. Qed.
+
 Lemma In_somes : forall {A} (x : A) l, In x (somes l) <-> In (Some x) l.
 Proof.
   induction l as [|[y|] l IH]; simpl.
@@ -105,6 +109,14 @@ Proof.
   destruct (f x); auto. constructor; auto. rewrite filter_In. tauto.
 Qed.
 
+Lemma nodup_nth_inj : forall {A} (l : list A) i j x,
+  NoDup l -> nth_error l i = Some x -> nth_error l j = Some x -> i = j.
+Proof.
+  intros A l i j x Hnd Hi Hj. apply (proj1 (NoDup_nth_error l) Hnd).
+  - apply nth_error_Some. congruence.
+  - congruence.
+Qed.
+
 (** two lists strictly sorted by the same measure with the same elements are equal *)
 Lemma sorted_unique : forall (f : N -> nat) l1 l2,
   StronglySorted (fun a b => f a < f b) l1 -> StronglySorted (fun a b => f a < f b) l2 ->
@@ -152,4 +164,27 @@ Lemma seq_sorted : forall n s, StronglySorted lt (seq s n).
 Proof.
   induction n; intros s; simpl; constructor; auto.
   rewrite Forall_forall. intros x Hx. apply in_seq in Hx. lia.
+Qed.
+
+Lemma sorted_strengthen : forall {A} (R R' : A -> A -> Prop) l,
+  StronglySorted R l -> NoDup l ->
+  (forall x y, In x l -> In y l -> x <> y -> R x y -> R' x y) -> StronglySorted R' l.
+Proof.
+  induction l as [|x l IH]; intros Hs Hnd H; [constructor|].
+  inversion Hs; subst. inversion Hnd; subst. constructor.
+  - apply IH; auto. intros; apply H; auto; right; auto.
+  - rewrite Forall_forall in *. intros y Hy. apply H; auto.
+    + left. auto.
+    + right. auto.
+    + intro; subst; contradiction.
+Qed.
+
+Lemma filter_map_swap : forall {A B} (P : B -> bool) (g : A -> B) l,
+  filter P (map g l) = map g (filter (fun x => P (g x)) l).
+Proof. induction l as [|x l IH]; simpl; auto. destruct (P (g x)); simpl; rewrite IH; auto. Qed.
+
+Lemma list_map_nth : forall {A} (l : list A) d, map (fun i => nth i l d) (seq 0 (length l)) = l.
+Proof.
+  induction l as [|x l IH]; intros d; [reflexivity|]. cbn [length seq map nth]. f_equal.
+  rewrite <- seq_shift, map_map. apply IH.
 Qed.
